@@ -17,6 +17,17 @@ CHECKS = {
             'Clock product restricted to float-resolvable clocks (minFrac*duration >= 8 ulp). Derivative functions are linear '
             'per-component; user models with side effects outside the callbacks are out of scope.',
             '2/C05'),
+    'C07': ('exploration',
+            'full-product enumeration of grids x populations x growth fields x nucleation x dt against an independent loop reference',
+            'Full Cartesian product over 1-4 (thorough: 6) size classes of per-class populations (0, sub-unit, unit, huge dynamic range), '
+            'all 3^(n+1) per-face growth sign patterns plus physical 1/R laws with the critical radius below/inside/above the grid, '
+            'nucleation radii below/on/inside/above the grid, step sizes 0.5-1000x the model\'s own limit, dissolution indices and bin '
+            'ratios; getdXdtEuler, correctdXdtEuler and getDTEuler of the real PopulationBalanceModel (and GrainGrowthModel) are compared '
+            'with an independent scalar upwind implementation; conservation, placement of nuclei, the face limiter, non-negativity '
+            'under the own step limit and argument immutability are evaluated on every point.',
+            'Per-face growth magnitudes are equal within a sign pattern (unequal magnitudes appear through the physical laws only); '
+            'grids are uniform as the PBM constructs them.',
+            '2/C07'),
 }
 
 NOT_YET = {}
